@@ -5,7 +5,7 @@ import CashewsVerif.Model.TxSched
   case <nkeys>                     -> ok            (forget everything)
   init <k> <v>                     -> ok
   task <tx|plain> <fast|locked|serializable> <timeout u> <ctx|dec> <op>*   -> ok
-        op = set:k:v | incr:k:n | get:k | del:k | expire:k | setx:k:v:0|1 | sleep:d | raise | raise:base | nin:ctx | nin:dec | nout
+        op = set:k:v | incr:k:n | get:k | del:k | expire:k | setx:k:v:0|1 | sleep:d | raise | raise:base | raise:falsy | raise:falsybase | nin:ctx | nin:dec | nout
            | commit | rollback      (explicit `tx.commit()` / `tx.rollback()` inside the body)
   run <tid>                        -> label=<command the task was parked before> store=… locks=… now=…
   adv <u>                          -> store=… locks=… now=…
@@ -36,8 +36,10 @@ def parseCmd? (s : String) : Option Cmd :=
   | ["setx", k, v, "1"] => do pure (.setx (← k.toNat?) (← v.toInt?) true)
   | ["setx", k, v, "0"] => do pure (.setx (← k.toNat?) (← v.toInt?) false)
   | ["sleep", d] => do pure (.sleep (← d.toNat?))
-  | ["raise"] => some (.raise false)
-  | ["raise", "base"] => some (.raise true)
+  | ["raise"] => some (.raise ⟨false, false⟩)
+  | ["raise", "base"] => some (.raise ⟨true, false⟩)
+  | ["raise", "falsy"] => some (.raise ⟨false, true⟩)        -- an `Exception` whose truth value is False
+  | ["raise", "falsybase"] => some (.raise ⟨true, true⟩)     -- a non-`Exception` `BaseException` whose truth value is False
   | ["commit"] => some .commit
   | ["rollback"] => some .rollback
   | ["nin", f] => do pure (.nestIn (← parseForm? f))
@@ -59,9 +61,11 @@ def showRes (rs : List (Option Int)) : String :=
 
 def showOutcome : Outcome → String
   | .returned rs => "ret:" ++ showRes rs
-  | .raisedBody => "raise:body"
+  | .raised ⟨false, false⟩ => "raise:body"
+  | .raised ⟨true, false⟩ => "raise:base"
+  | .raised ⟨false, true⟩ => "raise:falsy"
+  | .raised ⟨true, true⟩ => "raise:falsybase"
   | .raisedLocked => "raise:locked"
-  | .raisedBase => "raise:base"
   | .cancelled => "cancelled"
 
 def label (t : Task) : String :=
